@@ -525,9 +525,12 @@ class Interp(object):
                     self.ctx.cls("unify_over_label_with_2+_taxa_in_namespace")
                     if len(set(id(x[0]) for x in grp if x[0] is not None)) >= 2:
                         self.ctx.cls("unify_over_label_with_2+_taxa_in_namespace:2+_distinct_references")
-                V(all(x[2] is first for x in grp), "equal_labels_not_unified",
-                  lambda: "slots with equal label key %r ended on %d different taxa (namespace held %d taxa with that label)" % (
-                      k, len(set(id(x[2]) for x in grp)), len(pm)))
+                # (text sources have no source Taxon objects; which of several equally labelled members a reader picks
+                # is not documented, so for reads into such a namespace only membership of the matches is required)
+                if len(pm) <= 1 or all(x[0] is not None for x in grp):
+                    V(all(x[2] is first for x in grp), "equal_labels_not_unified",
+                      lambda: "slots with equal label key %r ended on %d different taxa (namespace held %d taxa with that label)" % (
+                          k, len(set(id(x[2]) for x in grp)), len(pm)))
             fk = [K(t.label) for t in fresh]
             V(len(set(fk)) == len(fk) and not any(k in prek for k in fk), "duplicate_taxon_created",
               lambda: "new taxa %r added to namespace that had %r" % ([t.label for t in fresh], [t.label for t in pre]))
